@@ -815,9 +815,13 @@ func bodyC25(c c25Case, x *vkit.Ctx) {
 			reuse := false
 			if op.B {
 				// a client may use the sequence number of a stream it has stopped
-				// for a new stream
+				// for a new stream. Only streams that carried the sync events are
+				// taken: the sync record seen before their stop proves that nothing
+				// of the old stream is still in flight (records queued before a stop
+				// are still delivered after it, and would be mistaken for records
+				// of the new stream).
 				for _, old := range s.streams {
-					if old.closeAt >= 0 && s.bySeq[old.seq] == old {
+					if old.closeAt >= 0 && s.bySeq[old.seq] == old && c25Match(old.filter, serf.UserEvent{Name: "zz-sync-0"}) {
 						seq, reuse = old.seq, true
 					}
 				}
